@@ -14,7 +14,9 @@ package c11
 import (
 	"context"
 	"fmt"
+	"sync"
 	"testing"
+	"time"
 
 	"github.com/jamf/regatta/storage"
 	"pgregory.net/rapid"
@@ -23,7 +25,7 @@ import (
 )
 
 type OStep struct {
-	Kind  string `json:"kind"` // add | notify | cancel | len
+	Kind  string `json:"kind"` // add | notify | cancel | len | sweep (wait until the queue's 1 s sweep of ended contexts has run)
 	Table string `json:"table"`
 	Rev   uint64 `json:"rev,omitempty"`
 	W     int    `json:"w,omitempty"` // cancel: index of the waiter (mod number of waiters)
@@ -81,6 +83,7 @@ func runOrder(c OrderCase, o *vt.Obs) *vt.Failure {
 	notified := map[string]uint64{}
 	hasNotify := map[string]bool{}
 	outOfOrder := 0
+	swept := 0
 	poll := func(step int) *vt.Failure {
 		for i, w := range ws {
 			if w.answered {
@@ -131,6 +134,15 @@ func runOrder(c OrderCase, o *vt.Obs) *vt.Failure {
 				w.cancel()
 				w.cancelled = true
 			}
+		case "sweep":
+			// the sweep runs on a hard-coded 1 s ticker.  Nothing is asserted about WHEN it runs: it is a perturbation of the queue's
+			// internal state, after which the untimed oracle must go on holding.  (The loop picks at random among ready events, so a few
+			// extra round trips make it very likely - not certain, and nothing depends on it - that a due sweep ran before we go on.)
+			time.Sleep(1100 * time.Millisecond)
+			for k := 0; k < 8; k++ {
+				q.Len("t")
+			}
+			swept++
 		}
 		// barrier: the loop has finished everything handed to it before this call
 		tb := s.Table
@@ -158,6 +170,16 @@ func runOrder(c OrderCase, o *vt.Obs) *vt.Failure {
 		}
 	}
 	o.NonTrivial = outOfOrder >= 2 && len(ws) >= 4
+	if swept > 0 {
+		cancelledN := 0
+		for _, w := range ws {
+			if w.cancelled {
+				cancelledN++
+			}
+		}
+		o.NonTrivial = cancelledN >= 1 && len(ws)-cancelledN >= 2
+		o.Label("sweep-between-registrations-and-notifications")
+	}
 	if outOfOrder >= 2 {
 		o.Label("waiters-registered-out-of-revision-order")
 	}
@@ -175,6 +197,80 @@ func revsOf(ws []*owaiter, table string) []uint64 {
 	}
 	return out
 }
+
+// ---- the same state machine with the 1 s sweep in the middle: many scenarios side by side (each is mostly sleeping) ------------------
+
+type SweepCase struct {
+	Scenarios []OrderCase `json:"scenarios"`
+}
+
+func genSweepScenario(t *rapid.T) OrderCase {
+	c := OrderCase{}
+	hi := uint64(rapid.SampledFrom([]int{8, 30}).Draw(t, "revrange"))
+	// phase 1: waiters on one table in arbitrary revision order, some of them cancelled (anywhere in the priority queue)
+	n := rapid.IntRange(3, 14).Draw(t, "waiters")
+	for i := 0; i < n; i++ {
+		c.Steps = append(c.Steps, OStep{Kind: "add", Table: "t", Rev: uint64(rapid.Uint64Range(1, hi).Draw(t, "rev"))})
+	}
+	k := rapid.IntRange(1, max(1, n/2)).Draw(t, "cancels")
+	for i := 0; i < k; i++ {
+		c.Steps = append(c.Steps, OStep{Kind: "cancel", W: rapid.IntRange(0, n-1).Draw(t, "w")})
+	}
+	c.Steps = append(c.Steps, OStep{Kind: "sweep"})
+	// phase 2: more waiters, then notifications walking up through the revisions
+	m := rapid.IntRange(0, 5).Draw(t, "late")
+	for i := 0; i < m; i++ {
+		c.Steps = append(c.Steps, OStep{Kind: "add", Table: "t", Rev: uint64(rapid.Uint64Range(1, hi).Draw(t, "rev"))})
+	}
+	r := uint64(0)
+	for r < hi {
+		r += uint64(rapid.IntRange(1, 4).Draw(t, "advance"))
+		c.Steps = append(c.Steps, OStep{Kind: "notify", Table: "t", Rev: r})
+	}
+	return c
+}
+
+func genSweep(t *rapid.T) SweepCase {
+	c := SweepCase{}
+	for i := 0; i < 200; i++ {
+		c.Scenarios = append(c.Scenarios, genSweepScenario(t))
+	}
+	return c
+}
+
+func runSweep(c SweepCase, o *vt.Obs) *vt.Failure {
+	fails := make([]*vt.Failure, len(c.Scenarios))
+	obs := make([]*vt.Obs, len(c.Scenarios))
+	var wg sync.WaitGroup
+	for i := range c.Scenarios {
+		wg.Add(1)
+		go func(i int) {
+			defer wg.Done()
+			obs[i] = &vt.Obs{}
+			fails[i] = runOrder(c.Scenarios[i], obs[i])
+		}(i)
+	}
+	wg.Wait()
+	o.Evals = len(c.Scenarios)
+	for i, f := range fails {
+		if f != nil {
+			f.Case = SweepCase{Scenarios: []OrderCase{c.Scenarios[i]}}
+			return f
+		}
+	}
+	for i, ob := range obs {
+		if ob.NonTrivial {
+			o.SubNonTrivial(fmt.Sprintf("s%d", i))
+		}
+	}
+	o.Label("sweep-between-registrations-and-notifications")
+	o.Describe = func() string { return fmt.Sprintf("%d scenarios, first: %+v", len(c.Scenarios), c.Scenarios[0].Steps) }
+	return nil
+}
+
+func TestC11Sweep(t *testing.T)        { vt.Check(t, prop, genSweep, runSweep) }
+func TestC11SweepReplay(t *testing.T)  { vt.Replay(t, prop, runSweep) }
+func TestC11SweepRegress(t *testing.T) { vt.Regress(t, prop, "testdata", runSweep) }
 
 func TestC11Order(t *testing.T)        { vt.Check(t, prop, genOrder, runOrder) }
 func TestC11OrderReplay(t *testing.T)  { vt.Replay(t, prop, runOrder) }
